@@ -39,6 +39,18 @@ class Ctx:
         return random.Random(f"{self.pid}-{self.seed}-{tag}")
 
 
+KNOWN_KEYS: set = set()   # keys of the listed known findings of the property being checked (set by main before the slice)
+T0 = [time.time()]        # when the slice started
+
+
+class Enough(Exception):
+    """raised out of a slice that has its violation and would only burn time finding it again"""
+
+    def __init__(self, outcome):
+        super().__init__("enough")
+        self.outcome = outcome
+
+
 class Outcome:
     """What a slice explored and what it found."""
 
@@ -67,6 +79,11 @@ class Outcome:
     def violation(self, key, what: str, replay: dict, observed=None, promised=None):
         if len(self.violations) < 50:
             self.violations.append({"key": key, "what": what, "replay": replay, "observed": observed, "promised": promised})
+        if key not in KNOWN_KEYS and time.time() - T0[0] > float(os.environ.get("VERIF_STOP_AFTER", "240") or 240):
+            raise Enough(self)  # a violation that is not a listed finding is in hand and the slice has run for minutes: report it
+        if "MemoryError" in f"{what} {observed}":
+            # every further exhaustion of the memory cap costs as long as filling it: the first one, with its input, is the report
+            raise Enough(self)
 
     def corr_mismatch(self, what: str, replay: dict, impl=None, model=None):
         if len(self.corr) < 50:
@@ -114,3 +131,23 @@ def first_diff(a: str, b: str) -> tuple[str, str]:
         if x != y:
             return x[:400], y[:400]
     return a[-200:], b[-200:]
+
+
+def limit_memory():
+    """the implementation under test runs inside this process and its Python children: a change to /repo that builds a table per tick or
+    per beat must end as a MemoryError on the input that provokes it (an undocumented error where an answer is promised), not as a machine
+    without memory. Address space of this process and its children is capped (VERIF_MEM_GB, default 4; the checks themselves stay below 0.2 GB); the Lean tools are exempted
+    (`unlimit_memory`), they map their libraries into a much larger address space."""
+    import resource
+    gb = float(os.environ.get("VERIF_MEM_GB", "4") or 4)
+    soft, hard = resource.getrlimit(resource.RLIMIT_AS)
+    lim = int(gb * 2**30)
+    if hard != resource.RLIM_INFINITY:
+        lim = min(lim, hard)
+    resource.setrlimit(resource.RLIMIT_AS, (lim, hard))
+
+
+def unlimit_memory():
+    import resource
+    soft, hard = resource.getrlimit(resource.RLIMIT_AS)
+    resource.setrlimit(resource.RLIMIT_AS, (hard, hard))
